@@ -8,7 +8,7 @@ import struct as _struct
 import uuid as _uuid
 
 from .interp_base import *  # noqa: F401,F403
-from .interp_base import Limit, Raised, Run, _Return, _Break, _Continue, _ids
+from .interp_base import Limit, Raised, Run, _Return, _Break, _Continue, _ids, NeedInline
 from .interp_core import is_concrete, NONETYPE
 
 FMT_RANGE = {"b": (8, True), "B": (8, False), "h": (16, True), "H": (16, False), "i": (32, True), "I": (32, False),
@@ -113,8 +113,22 @@ class SymMixin:
         return bool(s.info.get("maybe_none"))
 
     # ------------------------------------------------------------------ truth / decisions
+    def codec_dependency(self, t):
+        """uid of a higher-order callee whose opaque result occurs in term t (or None)."""
+        if isinstance(t, tuple):
+            if len(t) == 3 and t[0] == "codec" and isinstance(t[1], int) and isinstance(t[2], int):
+                return t
+            for x in t:
+                r = self.codec_dependency(x)
+                if r is not None:
+                    return r
+        return None
+
     def sym_truth(self, v: Sym, run, node) -> bool:
         t = v.term
+        dep = self.codec_dependency(t)
+        if dep is not None and t[0] != "maybe":
+            raise NeedInline(dep)
         if t[0] == "not":
             return not self.sym_truth(Sym(t[1], "bool"), run, node)
         if t[0] == "and_":
@@ -1046,6 +1060,14 @@ class SymMixin:
         if n == "bool":
             return self.truth(a[0], run, node)
         if n == "bytes":
+            v = a[0] if a else None
+            if isinstance(v, (tuple, ListV)):
+                items = list(v.items if isinstance(v, ListV) else v)
+                for x in items:
+                    _, lo, hi = self.int_parts(x, run) if isinstance(x, (Sym, int)) else (None, None, None)
+                    if lo is None or hi is None or lo < 0 or hi > 255:
+                        run.emit("may-raise", "ValueError", site, "bytes() of an integer not known to be in range(256)")
+                return Sym(("bytes-of", tuple(kterm(x) for x in items)), "bytes", len=len(items), byte_values=items)
             return Sym(("bytes", ta), "bytes")
         if n == "tuple":
             v = a[0]
